@@ -236,6 +236,13 @@ impl Exec {
         }
     }
 
+    /// Mark a task as woken (the harness changed something it polls for).
+    pub fn wake(&mut self, idx: usize) {
+        if let Some(t) = self.tasks.get(idx) {
+            t.flag.0.store(true, Ordering::SeqCst);
+        }
+    }
+
     pub fn is_finished(&self, idx: usize) -> bool {
         self.tasks.get(idx).map(|t| t.fut.is_none()).unwrap_or(true)
     }
